@@ -141,6 +141,12 @@ func (Engine) Run(t *tape.Tape, o eng.Opts) *eng.Result {
 				q.Hdr = append(q.Hdr, [2]string{"If-Modified-Since", []string{"Thu, 01 Jan 2037 00:00:00 GMT", "Thu, 01 Jan 1998 00:00:00 GMT", "garbage"}[gen.Intn(3)]})
 				info.hasIMS = true
 			}
+			if gen.Intn(8) == 1 {
+				// headers by which clients ask a server to treat the request as another method: the
+				// method that arrived decides whether Static may answer
+				name := []string{"X-HTTP-Method-Override", "X-Method-Override", "X-HTTP-Method"}[gen.Intn(3)]
+				q.Hdr = append(q.Hdr, [2]string{name, []string{"GET", "HEAD", "get", "POST", "DELETE"}[gen.Intn(5)]})
+			}
 			if k > 0 && gen.Intn(3) == 1 {
 				prev := reqs[ti][gen.Intn(k)]
 				q.ETagOf = prev
